@@ -49,6 +49,7 @@ type Options struct {
 	StrictSlash bool   `json:"strictSlash,omitempty"`
 	NotAllowed  bool   `json:"notAllowed,omitempty"`
 	Fallback    bool   `json:"fallback,omitempty"`
+	EncodedPath bool   `json:"encodedPath,omitempty"` // UseEncodedPath: match on URL.EscapedPath()
 	OnPanic     string `json:"onPanic,omitempty"` // handler id
 	OnError     string `json:"onError,omitempty"` // handler id
 }
